@@ -25,11 +25,12 @@ def canon(x, lock=True, names=True, device=True):
     if isinstance(x, NonTensorStack):
         return ["NTS", repr(x.tolist()), list(x.batch_size)]
     if isinstance(x, NonTensorData):
-        return ["NT", repr(x.data), list(x.batch_size)]
+        return ["NT", repr(x.data), list(x.batch_size), (None if x.device is None else str(x.device)) if device else None]
     if is_tensorclass(x):
         return ["TC", type(x).__name__, canon(x._tensordict, lock, names, device)]
     if isinstance(x, LazyStackedTensorDict):
-        return ["LS", x.stack_dim, list(x.batch_size), x.is_locked if lock else None, [canon(t, lock, names, device) for t in x.tensordicts]]
+        return ["LS", x.stack_dim, list(x.batch_size), x.is_locked if lock else None, [canon(t, lock, names, device) for t in x.tensordicts],
+                (list(x.names) if x._has_names() else None) if names else None]
     if isinstance(x, TensorDictBase):
         return ["TD", type(x).__name__, list(x.batch_size), (list(x.names) if x._has_names() else None) if names else None,
                 str(x.device) if device else None, x.is_locked if lock else None,
